@@ -24,7 +24,9 @@ Scen(lay, decoy, extra, rg, rev) ==
   LET used == {lay[h] : h \in Heights0}
       ufiles == {lay[h][1] : h \in Heights0}
       foreign == IF decoy THEN {p \in Places : p \notin used /\ p[1] \in ufiles} ELSE {}
-  IN [recs |-> [i \in 1..NB |-> Rec(IF rev THEN NB - i ELSE i - 1, lay)],
+      \* entries a node also keeps in the same database; they carry ids/heights that would clash if taken for blocks
+      junk == IF extra THEN <<[Rec(0, lay) EXCEPT !.id = 900, !.h = NB] @@ [key |-> "f"], [Rec(0, lay) EXCEPT !.id = 901, !.h = 0] @@ [key |-> "l"]>> ELSE <<>>
+  IN [recs |-> junk \o [i \in 1..NB |-> Rec(IF rev THEN NB - i ELSE i - 1, lay)],
       store |-> {[file |-> lay[h][1], off |-> lay[h][2], id |-> h] : h \in Heights0}
                 \cup {[file |-> p[1], off |-> p[2], id |-> 100 + p[1] * 10 + p[2]] : p \in foreign},
       files |-> ufiles \cup (IF extra THEN {99} ELSE {}),
